@@ -5,6 +5,7 @@
 import HealSparse.Lemmas.Core
 import HealSparse.Lemmas.Coverage
 import HealSparse.Lemmas.Valid
+import HealSparse.Lemmas.MultiOps
 import HealSparse.Model.MultiOps
 import HealSparse.Model.Api
 import HealSparse.Generated.OpsTable
@@ -27,14 +28,14 @@ theorem multiOp_spec (c : Cfg) (vc : VCfg V) (maps : List (State V)) (f : V → 
       (∀ p, p < c.npix → abs c vc r p = denseMulti c vc maps f filler union fillFirst p) ∧
       (∀ k, k < c.ncov → covered c r k =
           if union then maps.any (fun m => covered c m k) else maps.all (fun m => covered c m k)) := by
-  sorry
+  exact multiOp_spec' c vc maps f filler union fillFirst hInv hv hne hff
 
 /-- With a neutral start value the seeded fold is the operation folded, in list order, over
     exactly the valid inputs (what the property states for the named operations). -/
 theorem fold_neutral (f : V → V → V) (e : V) (vs : List V) (hne : vs ≠ [])
     (hneutral : ∀ x ∈ vs, f e x = x) :
     vs.foldl f e = (vs.tail).foldl f (vs.headD e) := by
-  sorry
+  exact foldl_neutral f e vs hne hneutral
 
 /-- Union mode, neutral start: valid-at-some-input pixels hold the plain fold of the valid
     inputs; pixels valid in no input hold the sentinel. -/
@@ -46,7 +47,21 @@ theorem union_fold (c : Cfg) (vc : VCfg V) (maps : List (State V)) (f : V → V 
       match validInputs c vc maps p with
       | [] => vc.sentinel
       | v :: rest => rest.foldl f v := by
-  sorry
+  obtain ⟨r', hr', _, habs, _⟩ :=
+    multiOp_spec c vc maps f e true false hInv hv hne (fun h => absurd h (by decide))
+  rw [hr] at hr'
+  cases hr'
+  rw [habs p hp]
+  unfold denseMulti
+  simp only [if_true]
+  by_cases hvs : validInputs c vc maps p = []
+  · rw [hvs]; rfl
+  · have hemp : (validInputs c vc maps p).isEmpty = false := by
+      simpa [List.isEmpty_iff] using hvs
+    rw [hemp]
+    simp only [Bool.false_eq_true, if_false]
+    exact foldl_neutral_match f e vc.sentinel _ hvs
+      (fun x hx => hneutral x (validInputs_valid c vc maps p x hx))
 
 /-- Intersection mode (neutral start or `fill_with_first_map`): pixels valid in all inputs
     hold the fold over all of them in list order; all others hold the sentinel. -/
@@ -61,28 +76,63 @@ theorem intersection_fold (c : Cfg) (vc : VCfg V) (maps : List (State V)) (f : V
          | [] => vc.sentinel
          | v :: rest => rest.foldl f v)
       else vc.sentinel := by
-  sorry
+  obtain ⟨r', hr', _, habs, _⟩ :=
+    multiOp_spec c vc maps f e false fillFirst hInv hv hne (fun _ => rfl)
+  rw [hr] at hr'
+  cases hr'
+  rw [habs p hp]
+  unfold denseMulti
+  simp only [Bool.false_eq_true, if_false]
+  split
+  · rename_i hlen
+    cases fillFirst with
+    | true => rfl
+    | false =>
+      simp only [Bool.false_eq_true, if_false]
+      have hvs : validInputs c vc maps p ≠ [] := by
+        intro h0
+        rw [h0] at hlen
+        exact hne (List.eq_nil_of_length_eq_zero hlen.symm)
+      exact foldl_neutral_match f e vc.sentinel _ hvs
+        (fun x hx => hneutral rfl x (validInputs_valid c vc maps p x hx))
+  · rfl
 
 /-! ### obligations over the operation table extracted from the source -/
 
-/-- membership of a cell in the carrier of dtype code `dt` -/
+/-- membership of a cell in the carrier of dtype code `dt`: integers representable at the
+    width of `dt`; floats as *normalised* dyadics `n / 2^e` (the normal form every `Val`
+    operation returns — `dyNorm`; without it `0 + x = x` fails syntactically, e.g.
+    `add 0 (2/2^1) = 1/2^0`) -/
 def inCarrier (dt : String) (x : Val) : Bool :=
   match parseDTCode dt, x with
   | some (.int b sg), .num n 0 => wrapInt b sg n == n
-  | some (.flt _), .num _ _ => true
+  | some (.flt _), .num n e => dyNorm n e == (n, e)
   | _, _ => false
 
+/-- dtype code of an integer / floating-point dtype -/
+def isIntCode (dt : String) : Bool :=
+  match parseDTCode dt with
+  | some (.int _ _) => true
+  | _ => false
+
+def isFltCode (dt : String) : Bool :=
+  match parseDTCode dt with
+  | some (.flt _) => true
+  | _ => false
+
 /-- the row's filler is neutral for its ufunc on the whole carrier of the first map's dtype,
-    and adding it does not change the array dtype (decided row by row) -/
+    and adding it does not change the array dtype (decided row by row).  Rows of an
+    `int_only` operation over a floating-point dtype are vacuous: `_apply_operation` raises
+    `ValueError` before the filler is ever used (`apiMultiOp` throws `.value`). -/
 def rowOk (r : OpRow) : Bool :=
   let dtArr := if r.dtypeOut == "" then (if r.dt == "u1w" then "u1" else r.dt) else r.dtypeOut
   r.promoted == dtArr &&
-  (r.fillFirst ||
+  (r.fillFirst || (r.intOnly && isFltCode r.dt) ||
     match r.ufunc, (if r.dt == "u1w" then "u1" else r.dt), r.filler with
     | "add", _, .num 0 _ => true
     | "multiply", _, .num 1 0 => true
-    | "bitwise_or", _, .num 0 _ => true
-    | "bitwise_xor", _, .num 0 _ => true
+    | "bitwise_or", dt, .num 0 _ => isIntCode dt
+    | "bitwise_xor", dt, .num 0 _ => isIntCode dt
     | "bitwise_and", dt, .num k 0 =>
         (match parseDTCode dt with
          | some (.int b sg) => k == (if sg then -1 else 2 ^ b - 1)
@@ -99,16 +149,96 @@ def rowOk (r : OpRow) : Bool :=
          | _, _ => false)
     | _, _, _ => false)
 
-/-- soundness of the row check: an accepted row's filler is neutral on the carrier -/
+/-- soundness of the row check: an accepted row's filler is neutral on the carrier.
+    `hio`: the front end only lets an `int_only` operation through on integer maps. -/
 theorem rowOk_sound (r : OpRow) (h : rowOk r = true) (hf : r.fillFirst = false) (hw : r.dt ≠ "u1w")
-    (dt : DT) (hdt : parseDTCode r.dt = some dt) (x : Val) (hx : inCarrier r.dt x = true) :
+    (dt : DT) (hdt : parseDTCode r.dt = some dt) (hio : r.intOnly = true → dt.isInt = true)
+    (x : Val) (hx : inCarrier r.dt x = true) :
     ufuncCell r.ufunc dt r.filler x = x := by
-  sorry
+  obtain ⟨name, ufunc, dts, filler, promoted, union, intOnly, fillFirst, dtypeOut⟩ := r
+  simp only at hf hw hdt hio hx ⊢
+  subst hf
+  unfold rowOk at h
+  simp only [beq_iff_eq, hw, if_false, Bool.false_or, Bool.and_eq_true, Bool.or_eq_true] at h
+  obtain ⟨-, h⟩ := h
+  unfold inCarrier at hx
+  rw [hdt] at hx
+  cases dt with
+  | bool => simp at hx
+  | int b sg =>
+    have hb := parseDTCode_bits_pos hdt
+    have hnf : isFltCode dts = false := by simp [isFltCode, hdt]
+    simp only [hnf, Bool.false_eq_true, and_false, false_or] at h
+    cases x with
+    | num n e =>
+      cases e with
+      | succ e => simp at hx
+      | zero =>
+        simp only [beq_iff_eq] at hx
+        have hbd := wrapInt_bounds b hb sg n hx
+        split at h
+        · exact add_zero_int b sg _ n hx
+        · exact mul_one_int b sg n hx
+        · exact or_zero_int b sg _ n hx
+        · exact xor_zero_int b sg _ n hx
+        · rw [hdt] at h
+          simp only [beq_iff_eq] at h
+          subst h
+          exact and_ones_int b sg n hx
+        · rw [hdt] at h
+          split at h
+          · rename_i k heq
+            cases heq
+            simp only [beq_iff_eq] at h
+            subst h
+            exact fmax_min_int _ _ n hbd.1
+          · simp at *
+          · simp at h
+        · rw [hdt] at h
+          split at h
+          · rename_i k heq
+            cases heq
+            simp only [beq_iff_eq] at h
+            subst h
+            exact fmin_max_int _ _ n hbd.2
+          · simp at *
+          · simp at h
+        · simp at h
+    | _ => simp at hx
+  | flt bits =>
+    have hnf : isIntCode dts = false := by simp [isIntCode, hdt]
+    have hio' : intOnly = false := by
+      cases intOnly with
+      | false => rfl
+      | true => simpa [DT.isInt] using hio rfl
+    subst hio'
+    simp only [Bool.false_eq_true, false_and, false_or] at h
+    cases x with
+    | num n e =>
+      simp only [beq_iff_eq] at hx
+      split at h
+      · exact add_zero_flt bits _ n e hx
+      · exact mul_one_flt bits n e hx
+      · simp [hnf] at h
+      · simp [hnf] at h
+      · rw [hdt] at h; simp at h
+      · rw [hdt] at h
+        split at h
+        · rename_i heq; cases heq
+        · exact fmax_inf _ _
+        · simp at h
+      · rw [hdt] at h
+        split at h
+        · rename_i heq; cases heq
+        · exact fmin_inf _ _
+        · simp at h
+      · simp at h
+    | _ => simp at hx
 
 /-- **generated obligation**: every row of the table extracted from /repo's operations.py
     passes the check (re-proved on every run; a changed filler breaks this proof) -/
 theorem opsTable_ok : opsTable.all rowOk = true := by
-  sorry
+  decide
 
 /-- the table covers the sixteen named operations for every numeric dtype and wide masks -/
 theorem opsTable_complete :
@@ -118,7 +248,7 @@ theorem opsTable_complete :
             "divide_intersection", "floor_divide_intersection"],
       ∀ dt ∈ ["i1", "i2", "i4", "i8", "u1", "u2", "u4", "u8", "f4", "f8", "u1w"],
         opsTable.any (fun r => r.name == nm && r.dt == dt) = true := by
-  sorry
+  decide
 
 /-- witness: the pre-fix filler of `max_union` (0) is not neutral — all-negative inputs gave 0 -/
 example : ufuncCell "fmax" (.int 32 true) (.num 0 0) (.num (-5) 0) ≠ .num (-5) 0 := by decide
